@@ -1,14 +1,24 @@
 // C52: mod_cors callbacks (corsHandler / corsPreflightHandler, ruleConvert, matchOriginAllowed, addVaryHeader)
 // vs model Cors.v.
-// input : [rules req rsp handler]   rules = [[match rule] ...] (match realised by the rule's condition)
+// input : [op ...]  a history on one fresh module instance (empty rule table)
+//   op = [0 conf]                     conf = [[product rules] ...] written to a rule file and loaded through the module's
+//                                     reload handler (loadRuleData -> CorsRuleFileLoad -> CorsRuleTable.Update)
+//      | [1 product req rsp handler]  request of that product
+//   rules = [[match rule] ...] (match realised by the rule's condition)
 //   rule = [origins:LB cred:bool expose:LB methods:LB headers:LB maxage:opt Z]
-//   req  = [method:B originValues:LB acrmValues:LB hasRules:bool]
+//   req  = [method:B originValues:LB acrmValues:LB ignored]
 //   rsp  = [vary acao acac acam acah acma aceh]  (each LB = the value lines of that response header)
 //   handler = 0 corsHandler (HandleReadResponse) | 1 corsPreflightHandler (HandleFoundProduct)
-// output: Err 1 (rule rejected) | [ret hdrs] with hdrs = the 7 header value lists, or [] when no response
+// output: one observation per op: [1] loaded | Err 1 load rejected | [ret hdrs] (hdrs = [] when no response)
 package main
 
 import (
+	"encoding/json"
+	"fmt"
+	"io/ioutil"
+	"os"
+	"path/filepath"
+
 	"verif/harness/hv"
 
 	"github.com/bfenetworks/bfe/bfe_http"
@@ -36,12 +46,9 @@ func hdrVal(h bfe_http.Header) hv.Val {
 	return out
 }
 
-func impl(in hv.Val) hv.Val {
-	top := hv.AsList(in)
-	req, rsp := hv.AsList(top[1]), hv.AsList(top[2])
-	preflight := hv.AsInt(top[3]) == 1
-	var raws []mod_cors.CorsRuleRaw
-	for k, mr := range hv.AsList(top[0]) {
+func rawRules(v hv.Val) mod_cors.RuleRawList {
+	raws := mod_cors.RuleRawList{}
+	for k, mr := range hv.AsList(v) {
 		pair := hv.AsList(mr)
 		rule := hv.AsList(pair[1])
 		raw := mod_cors.CorsRuleRaw{
@@ -55,7 +62,7 @@ func impl(in hv.Val) hv.Val {
 			v := int(hv.AsInt(ma[0]))
 			raw.AccessControlMaxAge = &v
 		}
-		// conditions: true / false, in two spellings each (the request host is example.org)
+		// conditions: true / false, in two spellings each
 		if hv.AsBool(pair[0]) {
 			raw.Cond = []string{"default_t()", "default_t() && !(!default_t())"}[k%2]
 		} else {
@@ -63,6 +70,13 @@ func impl(in hv.Val) hv.Val {
 		}
 		raws = append(raws, raw)
 	}
+	return raws
+}
+
+func request(top hv.L) hv.Val {
+	product := hv.AsStr(top[1])
+	req, rsp := hv.AsList(top[2]), hv.AsList(top[3])
+	preflight := hv.AsInt(top[4]) == 1
 	reqH := bfe_http.Header{}
 	if o := strs(req[1]); len(o) > 0 {
 		reqH["Origin"] = o
@@ -70,20 +84,13 @@ func impl(in hv.Val) hv.Val {
 	if a := strs(req[2]); len(a) > 0 {
 		reqH["Access-Control-Request-Method"] = a
 	}
-	product := "q"
-	if hv.AsBool(req[3]) {
-		product = "p"
-	}
 	rspH := bfe_http.Header{"Server": {"backend"}}
 	for k, n := range hdrNames {
 		if vs := strs(rsp[k]); len(vs) > 0 {
 			rspH[n] = vs
 		}
 	}
-	ret, h, err := mod_cors.VerifCorsC52(raws, product, hv.AsStr(req[0]), reqH, rspH, preflight)
-	if err != nil {
-		return hv.Err(1)
-	}
+	ret, h := mod_cors.VerifCorsRequestC52(product, hv.AsStr(req[0]), reqH, rspH, preflight)
 	code := 0
 	switch ret {
 	case bfe_module.BfeHandlerGoOn:
@@ -97,6 +104,40 @@ func impl(in hv.Val) hv.Val {
 		return hv.L{hv.I(code), hv.L{}}
 	}
 	return hv.L{hv.I(code), hdrVal(h)}
+}
+
+var loadSeq int
+
+func impl(in hv.Val) hv.Val {
+	mod_cors.VerifCorsResetC52()
+	out := hv.L{}
+	for _, opv := range hv.AsList(in) {
+		op := hv.AsList(opv)
+		if hv.AsInt(op[0]) == 1 {
+			out = append(out, request(op))
+			continue
+		}
+		loadSeq++
+		file := mod_cors.CorsRuleFile{Version: fmt.Sprintf("v%d", loadSeq), Config: mod_cors.ProductRuleRawList{}}
+		for _, pr := range hv.AsList(op[1]) {
+			p := hv.AsList(pr)
+			file.Config[hv.AsStr(p[0])] = rawRules(p[1])
+		}
+		data, err := json.Marshal(file)
+		if err != nil {
+			return hv.Err(7)
+		}
+		fn := filepath.Join(scratchRoot(), "verif-c52", fmt.Sprintf("cors-%d.data", os.Getpid()))
+		if err := ioutil.WriteFile(fn, data, 0644); err != nil {
+			return hv.Err(8)
+		}
+		if err := mod_cors.VerifCorsReloadC52(fn); err != nil {
+			out = append(out, hv.Err(1))
+		} else {
+			out = append(out, hv.L{hv.I(1)})
+		}
+	}
+	return out
 }
 
 var origins = []string{"http://a.example", "https://a.example", "http://b.example", "null", "http://a.example:8080",
@@ -223,7 +264,7 @@ func genRule(r *hv.Rng, clean bool) (string, []string, hv.Val) {
 	return class, allow, rule
 }
 
-func gen(r *hv.Rng, i int, tier string) (string, hv.Val) {
+func genStep(r *hv.Rng) (string, hv.Val, hv.Val, hv.Val, int) {
 	// ---- rule list: 0..4 rules with match flags; class and origin choice follow the first matching rule
 	nr := []int{1, 1, 1, 1, 1, 2, 2, 2, 3, 3, 4, 0}[r.Intn(12)]
 	dirty := r.Intn(nr + 1) // index of the one rule that may be invalid
@@ -322,9 +363,110 @@ func gen(r *hv.Rng, i int, tier string) (string, hv.Val) {
 	} else {
 		class += "/preflight"
 	}
-	return class, hv.L{rules, req, hv.L(rsp), hv.I(handler)}
+	return class, rules, req, hv.L(rsp), handler
+}
+
+var products = []string{"pa", "pb", "pc"}
+
+// a rule list that is valid with high probability
+func genCleanRules(r *hv.Rng, allow []string) hv.Val {
+	rules := hv.L{}
+	n := r.Range(0, 2)
+	for k := 0; k < n; k++ {
+		_, _, rule := genRule(r, true)
+		rules = append(rules, hv.L{hv.Bool(r.Chance(3, 4)), rule})
+	}
+	if len(allow) > 0 && r.Chance(2, 3) { // make sure the interesting origin is allowed by a matching rule
+		rules = append(hv.L{hv.L{hv.I(1), hv.L{hv.LS(allow), hv.Bool(r.Bool()), hv.LS(nil), hv.LS(nil), hv.LS(nil), hv.None()}}}, rules...)
+	}
+	return rules
+}
+
+func genConf(r *hv.Rng, must string, mustRules hv.Val, allow []string) hv.Val {
+	conf := hv.L{}
+	for _, p := range products {
+		if p == must {
+			conf = append(conf, hv.L{hv.S(p), mustRules})
+		} else if r.Chance(1, 2) {
+			conf = append(conf, hv.L{hv.S(p), genCleanRules(r, allow)})
+		}
+	}
+	return conf
+}
+
+// histories: load v1 -> requests -> reload (products / rules removed, changed, added, or an invalid file) -> requests
+func gen(r *hv.Rng, i int, tier string) (string, hv.Val) {
+	class, rules, req, rsp, handler := genStep(r)
+	prod := r.Pick(products)
+	reqL := hv.AsList(req)
+	orgs := []string{}
+	for _, o := range hv.AsList(reqL[1]) {
+		orgs = append(orgs, hv.AsStr(o))
+	}
+	reqOp := func(p string, h int) hv.Val {
+		rs := rsp
+		if h == 1 {
+			rs = hv.L{hv.LS(nil), hv.LS(nil), hv.LS(nil), hv.LS(nil), hv.LS(nil), hv.LS(nil), hv.LS(nil)}
+		}
+		return hv.L{hv.I(1), hv.S(p), req, rs, hv.I(h)}
+	}
+	ops := hv.L{}
+	switch k := r.Intn(10); {
+	case k < 4: // single load, one request (the earlier single-step cases), sometimes a request before any load
+		if r.Chance(1, 10) {
+			ops = append(ops, reqOp(prod, handler))
+		}
+		ops = append(ops, hv.L{hv.I(0), genConf(r, prod, rules, nil)}, reqOp(prod, handler))
+		if r.Chance(1, 4) {
+			ops = append(ops, reqOp(r.Pick(products), 1-handler))
+		}
+	default: // reload histories
+		class = "reload-" + class
+		ops = append(ops, hv.L{hv.I(0), genConf(r, prod, rules, orgs)}, reqOp(prod, handler))
+		if r.Chance(1, 2) {
+			ops = append(ops, reqOp(prod, 1-handler))
+		}
+		nre := r.Range(1, 2)
+		for j := 0; j < nre; j++ {
+			var conf hv.Val
+			switch r.Intn(6) {
+			case 0, 1: // the product is dropped
+				conf = genConf(r, "", nil, orgs)
+				c2 := hv.L{}
+				for _, pr := range hv.AsList(conf) {
+					if hv.AsStr(hv.AsList(pr)[0]) != prod {
+						c2 = append(c2, pr)
+					}
+				}
+				conf = c2
+			case 2: // the product keeps an empty list
+				conf = genConf(r, prod, hv.L{}, orgs)
+			case 3: // the product's rules change
+				conf = genConf(r, prod, genCleanRules(r, nil), orgs)
+			case 4: // an invalid file: must leave the table as it was
+				bad := hv.L{hv.L{hv.I(1), hv.L{hv.LS([]string{"*", "http://a.example"}), hv.Bool(false), hv.LS(nil), hv.LS(nil), hv.LS(nil), hv.None()}}}
+				conf = genConf(r, r.Pick(products), bad, orgs)
+			default: // same rules again, other products change
+				conf = genConf(r, prod, rules, orgs)
+			}
+			ops = append(ops, hv.L{hv.I(0), conf}, reqOp(prod, handler))
+			if r.Bool() {
+				ops = append(ops, reqOp(r.Pick(products), r.Intn(2)))
+			}
+		}
+	}
+	return class, ops
 }
 
 func main() {
-	hv.Main(&hv.Spec{Prop: "C52", Gen: gen, Impl: impl, NQuick: 12000, NThorough: 600000})
+	hv.Main(&hv.Spec{Prop: "C52", Gen: gen, Impl: impl, NQuick: 9000, NThorough: 450000,
+		Setup: func(string) { _ = os.MkdirAll(filepath.Join(scratchRoot(), "verif-c52"), 0755) }})
+}
+
+// rule files are rewritten for every reload: prefer a memory file system
+func scratchRoot() string {
+	if st, err := os.Stat("/dev/shm"); err == nil && st.IsDir() {
+		return "/dev/shm"
+	}
+	return os.TempDir()
 }
